@@ -399,6 +399,14 @@ class Run:
                         self.note(["C10"], "Measurement(%s) getters differ from the filtered database" % m)
             except Exception as ex:
                 self.note(["C07"], "getter(%s) raises %s" % (m, type(ex).__name__), str(ex))
+        # the handle for the (valid) name "" must be restricted like any other
+        try:
+            he = db.measurement("")
+            if he.count(parse_query("M.test")[0]) != 0 or len(he.search(parse_query("Tb.exists")[0])) != 0:
+                if not any(p.measurement == "" for p in model):
+                    self.note(["C10"], "Measurement('') reads are not restricted to the name ''")
+        except Exception as ex:
+            self.note(["C10"], "Measurement('') raises %s" % type(ex).__name__)
         if db.get_measurements() != sorted({p.measurement for p in model}):
             self.note(["C07"], "get_measurements wrong")
         if len(db) != len(model):
